@@ -216,14 +216,16 @@ def dom_allowed_check(chk: Check) -> None:
 
     # transition_to: every _enter_next_state is preceded by _exit_current_state or runs under the failing flag
     tt = prog.func('base.state_machine.StateMachine.transition_to')
-    tcfg = cfg_of(tt)
+    tff = chk.ctx.facts.analyse(tt)
+    tcfg = tff.cfg
     enters = [n for n in tcfg.nodes if node_has_call(n, '_enter_next_state')]
     chk.floor('DOM-allowed-check:enter-sites', len(enters), 1)
 
     def through(n) -> bool:
         if node_has_call(n, '_exit_current_state'):
             return True
-        return n.kind == 'test' and '_transition_failing' in unparse(n.ast.test)
+        # (the bypass test, written on the flag itself or on a local that stands for it: ``leave_current = not self._transition_failing``)
+        return n.kind == 'test' and '_transition_failing' in unparse(tff.subst_flags(n.ast.test, tff.at(n)))
 
     for e in enters:
         # restart the requirement at every reassignment of the state variable that is entered
